@@ -135,6 +135,22 @@ class Check:
                 results.append((q, res))
         results.sort(key=lambda qr: qs.index(qr[0]))
 
+        # 2b. the native binaries of the differential run (generated C with clang, real harness with g++) are built per entry: do that in parallel
+        def prebuild(q):
+            try:
+                q.unit.build_native_gen(wd, q.entry); q.unit.build_native_real(wd, q.entry)
+            except Exception:
+                pass        # reported by differential() below
+        todo = [q for q, res in results if q.replay in ('native', 'asan') and res.get('status') == 'done'
+                and any(p['desc'] == WITNESS_DESC and p.get('trace') for p in res.get('props', []))]
+        firsts = {}
+        for q in todo:
+            firsts.setdefault(q.unit.key, q)          # the shared object file of a unit is built once, by one thread
+        with ThreadPoolExecutor(max_workers=jobs) as ex:
+            list(ex.map(prebuild, firsts.values()))
+        with ThreadPoolExecutor(max_workers=jobs) as ex:
+            list(ex.map(prebuild, todo))
+
         # 3. classify
         violations = []; known_lines = []; records = []; validated = 0
         for q, res in results:
